@@ -181,6 +181,8 @@ class _InMemoryResult(Result):
     self._best_trial = None
     self._latest_trial_per_group = {}
     self._lock = threading.Lock()
+    # Serializes the reports to the (shared) search algorithm.
+    self._feedback_lock = threading.Lock()
 
   def create_trial(
       self,
@@ -377,7 +379,11 @@ class _InMemoryBackend(backend.Backend):
     """Feedback callback for a trial."""
     reward = trial.get_reward_for_feedback(self._metrics_to_optimize)
     if reward is not None:
-      self._algorithm.feedback(dna, reward)
+      # NOTE: algorithms number and count their reports outside any lock of
+      # their own, so the reports of concurrent workers are delivered one at a
+      # time.
+      with self._study._feedback_lock:  # pylint: disable=protected-access
+        self._algorithm.feedback(dna, reward)
 
   def _should_stop_early(self, trial: Trial) -> bool:
     if self._early_stopping_policy is not None:
